@@ -6,6 +6,7 @@ VersionsQuick == {"1", "3", "6", "10", "11", "12", "org.matrix.msc4014"}
 VersionsAll == AllVersions
 VersionsCtor == {"1", "10", "12"}                              \* one version per untrusted constructor (V1, V2, V3)
 VersionsPairQuick == {"1", "10", "12", "org.matrix.msc4014"}
+VersionsPlaceQuick == {"1", "4", "10", "12"}                   \* both event formats, every constructor
 
 VClass(v) == IF DomainlessRoomIDs(v) THEN "domainless" ELSE IF PseudoIDs(v) THEN "pseudoid" ELSE "plain"
 Cls(x) == IF x > 255 THEN ">255" ELSE "<=255"
@@ -31,10 +32,17 @@ Desc == (IF sc.create THEN "create-event;" ELSE "") \o
          ELSE FieldDesc("type") \o FieldDesc("state_key") \o FieldDesc("sender") \o FieldDesc("room_id"))
         \o (IF sc.size = 0 THEN "" ELSE IF sc.size > 65536 THEN "json>65536;" ELSE "json<=65536;")
         \o (IF sc.hash = "match" THEN "" ELSE "hash=" \o sc.hash \o ";")
+\* family "place": where the bulk of the bytes is, what is left of it on receipt, how the event reached CheckFields
+PlaceDesc == IF Family # "place" THEN ""
+             ELSE "bulk=" \o sc.place \o ";"
+                  \o (IF sc.path = "receipt" /\ sc.proper # sc.size
+                      THEN (IF sc.proper > 65536 THEN "kept>65536;" ELSE "kept<=65536;") ELSE "")
+                  \o (IF sc.via \in {"headered", "setunsigned", "sign"} THEN "via=" \o sc.via \o ";" ELSE "")
 
 Emit == Done =>
           PrintT(ToJson([fam |-> Family, ver |-> sc.ver, path |-> sc.path, hash |-> sc.hash, size |-> sc.size, sizeof |-> sc.sizeof, create |-> sc.create,
+                         place |-> sc.place, proper |-> sc.proper, via |-> sc.via, base |-> sc.base, alt |-> Alt(sc), pre |-> pre,
                          fields |-> [f \in Fields |-> [cps |-> sc.fields[f].cps, nwide |-> sc.fields[f].nwide,
                                                        width |-> sc.fields[f].width, bytes |-> BytesOf(sc.fields[f])]],
-                         want |-> out, vclass |-> VClass(sc.ver), desc |-> Desc, listed |-> Listed]))
+                         want |-> out, vclass |-> VClass(sc.ver), desc |-> Desc \o PlaceDesc, listed |-> Listed]))
 =============================================================================
